@@ -5,6 +5,7 @@ import (
 	"math/rand"
 	"os"
 	"path/filepath"
+	"strings"
 
 	"github.com/scottyw/tetromino/gameboy/controller"
 	"github.com/scottyw/tetromino/gameboy/memory"
@@ -37,12 +38,16 @@ type intRig struct {
 	cycle  int
 	on     bool
 	broken bool // the CPU panicked: build a new rig
+	decoy  *machine.Machine
 }
 
 func newIntRig() *intRig {
 	r := &intRig{}
 	r.m = machine.New(intROM, machine.Options{})
 	r.m.QuietLCD()
+	// a second emulator created afterwards and never stepped (as in the instruction rig): dispatch sequences, tables or
+	// handlers shared between CPU instances show in the older one
+	r.decoy = machine.New(intROM, machine.Options{})
 	memory.VerifBusObserver = func(mm *memory.Mapper, write bool, addr uint16, value uint8) {
 		if !r.on || mm != r.m.M {
 			return
@@ -245,6 +250,20 @@ func intGen(c *Ctx) {
 			}
 		}
 	}
+	if c.Want("boundary") {
+		// the stack pointer placed so that the two pushes of a dispatch land on IE (FFFF) or IF (FF0F): the interrupt
+		// serviced is still the one that was highest at the boundary
+		rng := c.Rand(408)
+		for _, sp := range []int{0x0000, 0x0001, 0xff10, 0xff11, 0xff0f} {
+			for _, pc := range []int{0xc010, 0xc2f1, 0xc108, 0xc31f} {
+				for _, p := range [][2]int{{0x01, 0x01}, {0x08, 0x0a}, {0x1f, 0x1f}, {0x04, 0x05}, {0x10, 0x18}, {0x1f, 0x10}, {0x02, 0x1e}} {
+					r := intRegs(rng)
+					r[8], r[9] = sp, pc
+					emit("boundary", &intScript{Regs: r, Code: []int{0x04, 0x04, 0x0c}, IME: 1, IE: p[0], IF: p[1], Units: 1})
+				}
+			}
+		}
+	}
 	for _, fam := range []string{"prog", "hprog"} {
 		if !c.Want(fam) || (c.Fam == "" && false) {
 			continue
@@ -412,6 +431,18 @@ func intGen(c *Ctx) {
 			nroms, windows, units = len(roms), 6, 4000
 		}
 		k := 0
+		// generated busy programs (OAM DMA from work RAM while code runs from ROM, HALT with and without the master
+		// enable, timer and IF / IE writes all the time)
+		ngen := 2
+		if thorough {
+			ngen = 8
+		}
+		for g := 0; g < ngen; g++ {
+			rom := intGenROM(c.Out, g)
+			for wdw := 0; wdw < 2; wdw++ {
+				w.Put(romTrace(fmt.Sprintf("int-rom-gen%d-%d", g, wdw), rom, 40+rng.Intn(30000), units))
+			}
+		}
 		for i := 0; i < nroms; i++ {
 			rom := filepath.Join(base, roms[(i*5+int(c.Seed))%len(roms)])
 			if thorough {
@@ -435,6 +466,13 @@ func intGen(c *Ctx) {
 
 // romTrace runs a ROM on the full machine (hardware ticking, requests raised by the PPU and the timer) and records
 // windows of consecutive units: what was raised is what appeared in IF during the hardware part of each cycle.
+// intGenROM writes the g-th generated program (all cartridge variants in turn) into dir and returns its path.
+func intGenROM(dir string, g int) string {
+	p := filepath.Join(dir, fmt.Sprintf("int-gen-%d.gb", g))
+	os.WriteFile(p, genROM(int64(8*(5000+131*g)+[]int{0, 2, 1, 3, 4, 6, 5, 0}[g%8])), 0o644)
+	return p
+}
+
 func romTrace(id, rom string, skip, units int) *trace.Scenario {
 	img, err := os.ReadFile(rom)
 	sc := &trace.Scenario{ID: id}
@@ -537,6 +575,11 @@ func intRerun(c *Ctx) {
 	for _, s := range scs {
 		if rr, ok := s.Reset.([]any); ok && len(rr) >= 6 {
 			if rom, isStr := rr[3].(string); isStr {
+				if b := filepath.Base(rom); strings.HasPrefix(b, "int-gen-") {
+					g := 0
+					fmt.Sscanf(b, "int-gen-%d.gb", &g)
+					rom = intGenROM(c.Out, g) // generated ROMs are regenerated
+				}
 				w.Put(romTrace(s.ID, rom, trace.Int(rr[4]), trace.Int(rr[5])))
 				continue
 			}
